@@ -228,7 +228,7 @@ macro_rules! parts {
     }};
 }
 
-static SYS: LockStep = LockStep { property: "C18", probes: true, seed: None };
+static SYS: LockStep = LockStep { property: "C18", probes: true, seed: None, via_feed: false };
 
 pub fn run(ctx: &Ctx) -> Report {
     let mut rep = Report::new();
